@@ -146,15 +146,16 @@ class IEnv:
             c.append((o & m) != u)
         return z3.And(*c) if len(c) > 1 else c[0]
 
-    def run_row(s, i, o, e, extra_pc=(), timeout_s=300):
+    def run_row(s, i, o, e, extra_pc=(), timeout_s=300, st_in=None, keep=False):
         """dispatch table row i through the real Matcher::call; returns dict(st, exits, oblig, ninstr) ; st None if no
         path returns normally"""
         ex, st0, ctx = s.base()
-        st = st0.fork()
+        st = (st_in if st_in is not None else st0).fork()
         row = s.rows[i]
         st.pc += list(extra_pc)
-        ex.exits = []
-        ex.oblig = []
+        if not keep:
+            ex.exits = []
+            ex.oblig = []
         n0 = ex.ninstr
         r = ex.call(st, '@callm', [row['ptr'], ctx['interp'], o, e])
         out = {'st': None if (r is None or r is DEAD) else r[0], 'exits': list(ex.exits), 'oblig': list(ex.oblig), 'ninstr': ex.ninstr - n0}
